@@ -34,10 +34,11 @@ RULE = (
     "low-rank, rough and Fourier-simulated data, uniform and non-uniform grids, 1-D and 2-D) and MFPCA fits (both methods). "
     "A case is non-trivial when the matrix/data are not all zero; distinct by content hash"
 )
+TRUSTED_EXTRA = ["translator harness/c01.py:translate() (ast, syntax only: comparison strictness, added constant, float guard, dispatch of _select_number_eigencomponents)"]
 PARTIAL = [
     "translator: `_select_number_eigencomponents` is re-parsed with `ast` on every run into lean/FDAModel/Generated/SelectNpc.lean and "
-    "proved equal to the model's selectNpc (C01.source_selectNpc); when the source shape is not recognised the last generated file is "
-    "kept, coverage.translator says so and the tie rests on the correspondence only",
+    "proved equal to the model's selectNpc (C01.source_selectNpc); when the source shape is not recognised the reference translation harness/c01_selectnpc_reference.lean is "
+    "used, a note is printed, coverage.translator says so and the tie rests on the correspondence only",
     "numpy.linalg.eig is a parameter: its output is captured, not verified; its eigen-residual is measured by the oracle (pairing clause)",
     "irregular data: the eigen helper receives the smoothed covariance; only dense fits are sampled at the estimator level",
     "fraction decisions whose exact margin is < 1e-9 are counted as ties and skipped by the oracle (the model still decides them exactly)",
@@ -175,7 +176,16 @@ def translate():
     try:
         x = parse_select_npc(path)
     except (_Unrecognised, SyntaxError, OSError) as e:
+        # not an alarm: fall back on the reference translation stored beside the translator (not on whatever an earlier run
+        # left in Generated/), say so, and let the correspondence decide
+        TRANSLATOR.clear()
         TRANSLATOR.update(status="source shape not recognised, tie rests on the correspondence only", detail=str(e)[:120])
+        print("note: translator: shape of _select_number_eigencomponents not recognised, tie rests on the correspondence only "
+              f"({str(e)[:100]})")
+        src = open(os.path.join(os.path.dirname(os.path.abspath(__file__)), "c01_selectnpc_reference.lean")).read()
+        if not os.path.exists(GEN_FILE) or open(GEN_FILE).read() != src:
+            with open(GEN_FILE, "w") as fh:
+                fh.write(src)
         return
     src = lean_source(x)
     old = open(GEN_FILE).read() if os.path.exists(GEN_FILE) else None
@@ -292,6 +302,21 @@ def _helper_cases(rng: Rng, tier):
         q = _orth(npr, n)
         A = q @ np.diag(s_) @ q.T
         yield dict(kind="helper", sub="large", A=((A + A.T) / 2).tolist(), sel=["int", rng.randint(1, 8)], spectrum=s_)
+    # (b3) fractions close to 0 and to 1 on spectra with a long weak tail (every run): exact dyadic spectra on a
+    # descending diagonal (so the solver output is sorted and the exact model is the reference), dynamic range up to 2^-40;
+    # fractions 1 - 10^-k and 10^-k (k = 2..9) and the cumulated shares of the spectrum itself +/- 1 ulp
+    for spec in ([4.0, 1.0, 2.0 ** -3, 2.0 ** -16, 2.0 ** -17, 0.0],
+                 [1.0, 2.0 ** -10, 2.0 ** -20, 2.0 ** -30, 2.0 ** -40],
+                 [4.0, 2.0, 1.0, 0.5, 0.25, 0.25],                         # total 8: shares exact in floating point
+                 [1.0, 0.5, 2.0 ** -2, 2.0 ** -3, 2.0 ** -12, 2.0 ** -12, 2.0 ** -13, 2.0 ** -13]):   # weak tail with ties
+        fr = [Fraction(1) - Fraction(1, 10 ** k) for k in range(2, 10)] + [Fraction(1, 10 ** k) for k in range(2, 10)]
+        tot = sum(spec)
+        cs = np.cumsum(spec) / tot
+        ulps = [float(np.nextafter(c, 0.0)) for c in cs[:-1]] + [float(np.nextafter(c, 2.0)) for c in cs[:-1]] + [float(c) for c in cs[:-1]]
+        ps = [rs(f) for f in fr] + [rs(F(float(x))) for x in ulps if 0 < x < 1]
+        for pstr in (ps if big else rng.sample(ps, 14)):
+            if F(pstr) < 1:
+                yield dict(kind="helper", sub="weak-tail", A=np.diag(spec).tolist(), sel=["frac", pstr], spectrum=list(spec))
     # (c) boundary selectors on a fixed small matrix
     for sel in _boundary_sels():
         yield dict(kind="helper", sub="boundary", A=[[2.0, 0.0, 0.0], [0.0, 5.0, 0.0], [0.0, 0.0, 3.0]], sel=sel, spectrum=[2.0, 5.0, 3.0])
@@ -404,6 +429,16 @@ def _auto_fraction_cases(rng: Rng, tier):
                 t = unit(m)
                 yield dict(kind="ufpca", method=method, normalize=False, sel=["all"], auto_fracs=True, dk="auto-fractions",
                            t=Svec(t), X=Smat(_noisy(rng, n, t, amp)))
+        # spectra with a long weak tail: directions of amplitude 8^-k (variance ratio 64^-k) plus a little noise
+        for method in ("covariance", "inner-product"):
+            n, m = 8, rng.randint(8, 11)
+            t = unit(m)
+            base, _ = curves(rng, n, t, "rough")
+            shapes, _ = curves(rng, 4, t, "smooth")
+            X = [[sum(Fraction(1, 8 ** k) * shapes[k][j] * ((-1) ** (i * (k + 1))) * (i + 1 + k) for k in range(4))
+                  + base[i][j] / 2 ** 22 for j in range(m)] for i in range(n)]
+            yield dict(kind="ufpca", method=method, normalize=False, sel=["all"], auto_fracs=True, dk="auto-fractions-weak-tail",
+                       t=Svec(t), X=Smat(X))
         for method, amp in (("inner-product", Fraction(1, 8)), ("inner-product", Fraction(1, 2)), ("inner-product", Fraction(2)),
                             ("covariance", Fraction(1, 2))):
             n = rng.randint(7, 10)
@@ -602,6 +637,9 @@ def _auto_fractions(case, full, shared=None):
     for k in dict.fromkeys(ks):
         nxt = cum[k + 1] if k + 1 < len(cum) else 1.0
         ps += [cum[k] - 1e-6, cum[k] + 1e-6, (cum[k] + min(nxt, 1.0)) / 2]
+    ps += [1 - 10.0 ** -k for k in (2, 4, 5, 7, 9)] + [10.0 ** -k for k in (2, 5, 9)]
+    if len(cum) > 1:
+        ps += [float(np.nextafter(cum[0], 0.0)), float(np.nextafter(cum[0], 2.0)), float(np.nextafter(cum[-2], 2.0))]
     for p in ps:
         p = float(p)
         if not (0 < p < 1):
